@@ -68,7 +68,7 @@ AXES = {
     "image": ["none", "u8", "u16", "u32", "u64"],
     "charge": ["zero", "array", "clusters"],
     "scene": ["none", "one"],
-    "data": ["empty", "one", "nested"],
+    "data": ["empty", "one", "nested", "groups"],
 }
 PHASE_AXIS = ["none", "set"]
 NOTHING = {"photon": "none", "pixel": "none", "signal": "none", "image": "none", "charge": "zero", "scene": "none",
@@ -218,8 +218,14 @@ def fill_containers(det, combo, salt=0.0):
             attrs={"right_ascension": "56.75 deg", "fov_radius": 0.5})
         det.scene.add_source(src)
     da = combo.get("data", "empty")
-    if da in ("one", "nested"):
+    if da in ("one", "nested", "groups"):
         det.data["/stat"] = xr.DataArray(np.arange(3, dtype=float) + salt + _seed() % 5, dims=["k"])
+    if da == "groups":
+        # nodes WITHOUT data variables that still carry information: a parent group holding only a coordinate and
+        # attributes, an attribute-only leaf
+        det.data["/grp"] = xr.DataTree(xr.Dataset(coords={"c": [1.0, 2.0 + salt]}, attrs={"note": "parent group"}))
+        det.data["/grp/leaf"] = xr.DataArray(np.array([1.0, 2.0]) + salt, dims=["c"])
+        det.data["/meta"] = xr.DataTree(xr.Dataset(attrs={"origin": "vp", "version": 3}))
     if da == "nested":
         det.data["/grp/sub/table"] = xr.DataArray(np.arange(4, dtype="int64").reshape(2, 2) + int(salt),
                                                   dims=["a", "b"], coords={"a": [10, 20]}, attrs={"units": "adu"})
@@ -435,6 +441,8 @@ MODEL_FILES = {
             "data": "one", "phase": "set"},
     "F3d": {"photon": "3d", "pixel": "set", "signal": "set", "image": "u32", "charge": "clusters", "scene": "one",
             "data": "nested", "phase": "set"},
+    "Fgrp": {"photon": "2d", "pixel": "set", "signal": "set", "image": "u64", "charge": "array", "scene": "none",
+             "data": "groups", "phase": "set"},
 }
 POSITIONS = ("first", "middle", "last")
 
@@ -556,8 +564,14 @@ OBSERVED: list = []
 
 
 def m_fill(detector, combo=None, salt=0.0):
-    """model: fill the running detector's containers (values differ from the file's through `salt`)"""
+    """model: fill the running detector's containers (values differ from the file's through `salt`; the signal and the
+    image also differ from the file's in their data TYPE: loading must replace the arrays, not write into them)"""
     fill_containers(detector, dict(combo or {}), salt=float(salt))
+    if detector.signal._array is not None:
+        detector.signal.array = detector.signal.array.astype("float32")
+    if detector.image._array is not None:
+        other = {"uint8": "uint16", "uint16": "uint32", "uint32": "uint16", "uint64": "uint16"}[str(detector.image.dtype)]
+        detector.image.array = (detector.image.array % 60000).astype(other)
 
 
 def m_observe(detector, tag=""):
